@@ -771,6 +771,11 @@ func (r *Reader) parseBodyElements(data []byte) error {
 			}
 
 			switch t.Name.Local {
+			case "tracked-changes":
+				// The record of tracked changes holds deleted text, which is not
+				// part of the body
+				decoder.Skip()
+
 			case "p":
 				// Paragraph
 				var para paragraphXML
